@@ -856,6 +856,45 @@ def run(prog, ctx):
         res.undecided += 1
     else:
         res.violate("C16.D", "C16.D|default-seed", "DEFAULT_UPDATE_SEED is %s, expected 9001" % (ds.get("v") if ds else None))
+    # floating-point items: the Java/C++ sketches hash Double.doubleToLongBits(v), i.e. every NaN as 0x7ff8000000000000 and -0.0 as
+    # +0.0; the value each public update_f64 hands on is evaluated for NaNs of either sign and with a payload, both zeros, and an
+    # ordinary value
+    import struct as _st
+    def _f(bits):
+        return _st.unpack("<d", _st.pack("<Q", bits))[0]
+    probes = [(0x3ff8000000000000, 0x3ff8000000000000), (0x0, 0x0), (0x8000000000000000, 0x0), (0x7ff8000000000000, 0x7ff8000000000000),
+              (0xfff8000000000000, 0x7ff8000000000000), (0x7ff8000000000123, 0x7ff8000000000000), (0xfff0000000000001, 0x7ff8000000000000),
+              (0xc008000000000000, 0xc008000000000000)]
+    for fu in sorted((g for g in prog.fns.values() if not g.promoted and g.exported and g.item_name == "update_f64" and g.argc == 2), key=lambda g: g.id):
+        n_d += 1
+        su = Sym(prog, fu)
+        pn = fu.local_name(2) or "value"
+        verdict, wit = None, "no call in %s receives a value derived from the item" % fu.id
+        for b, site in fu.calls():
+            if len(site["args"]) < 2:
+                continue
+            try:
+                a = su.at(b, "t").operand(site["args"][1])
+            except Exception:
+                continue
+            if not sym.contains(a, lambda t: t[0] == "param" and t[1] == 2):
+                continue
+            try:
+                for bits_in, want in probes:
+                    got = formula.evaluate(a, {"@prog": prog, "@ieee": True, pn: _f(bits_in)})
+                    if isinstance(got, float):
+                        got = _st.unpack("<Q", _st.pack("<d", got))[0]
+                    if not isinstance(got, int):
+                        raise formula.Uneval("non-integer item")
+                    if verdict is None:
+                        verdict = True
+                    if got != want and verdict is not False:
+                        verdict, wit = False, "for the double with bits 0x%016x %s hashes 0x%016x; doubleToLongBits semantics give 0x%016x" % (bits_in, fu.id, got, want)
+            except (formula.Uneval, TypeError, IndexError, ZeroDivisionError):
+                continue
+            if verdict is not None:
+                break
+        res.tri(verdict, "C16.D", "C16.D|f64|%s" % fu.id, "floating-point items: %s" % wit, fu.id)
     res.rule("C16.D", n_d, 3, "derivations")
     res.explanation = ("the extracted expression DAGs of the hashing functions are evaluated against reference implementations of MurmurHash3 x64-128 "
                        "and XXH64 on random inputs; the buffered-length counter of each Hasher::write is obtained as a select-tree over all paths and "
